@@ -231,7 +231,7 @@ def sin_vector(x: Interval):  # vectorised version of sin().
 
     yl = x.lo % twopi
     yh = x.hi % twopi
-    y = Interval(yl, yh)
+    # the reduced endpoints are not ordered when an element wraps through a multiple of 2 pi
 
     sin_l = numpy_sin(yl)
     sin_h = numpy_sin(yh)
@@ -248,26 +248,25 @@ def sin_vector(x: Interval):  # vectorised version of sin().
     case1 = mask1a | mask3a | mask3b | mask3c | mask3d
     a[case1] = -1
     b[case1] = 1
-    if all(case1):
+    if numpy.all(case1):
         return Interval(lo=a, hi=b)
+    rest = ~case1  # masks keep the full shape, elements of case 1 are excluded
     # [h,l]
     mask2b = (
-        contain(domain2, yl[~case1])
-        & contain(domain2, yh[~case1])
-        & (yl[~case1] <= yh[~case1])
+        rest & contain(domain2, yl) & contain(domain2, yh) & (yl <= yh)
     )  # return Interval(sin_h,sin_l)
     case2 = mask2b
     a[case2] = sin_h[case2]
     b[case2] = sin_l[case2]
     # [min, 1]
-    mask5a = contain(domain1, yl[~case1]) & contain(domain2, yh[~case1])
-    mask5b = contain(domain3, yl[~case1]) & contain(domain2, yh[~case1])
+    mask5a = rest & contain(domain1, yl) & contain(domain2, yh)
+    mask5b = rest & contain(domain3, yl) & contain(domain2, yh)
     case3 = mask5a | mask5b
     a[case3] = min(sin_l[case3], sin_h[case3])
     b[case3] = 1
     # [-1, max]
-    mask6a = contain(domain2, yl[~case1]) & contain(domain1, yh[~case1])
-    mask6b = contain(domain2, yl[~case1]) & contain(domain3, yh[~case1])
+    mask6a = rest & contain(domain2, yl) & contain(domain1, yh)
+    mask6b = rest & contain(domain2, yl) & contain(domain3, yh)
     case4 = mask6a | mask6b
     a[case4] = -1
     b[case4] = max(sin_l[case4], sin_h[case4])
